@@ -52,6 +52,14 @@ CHECKS = {
             "Map-order dependence is detected probabilistically (each re-execution sees fresh Go map iteration orders); a dependence that "
             "needs a map of >8 entries is out of reach of the generated schemas.",
             "differential property-based testing (rapid): N re-executions of the same case must agree", "DESIGN.md §5 C11"),
+    "C14": ("exploration",
+            "Property-based exploration: 1..3 recording tracers bound before the workload; for every generated history (one or several issuing "
+            "goroutines, queued/prepended/check/canceled mutations) each tracer's raw callback log is checked for exactly-once Init<Start<[Finals<]End "
+            "brackets that never interleave, the before/after time chain against Machine.Time sampled inside TransitionEnd and at quiescence, and "
+            "all tracers must agree.",
+            "Fault-free handlers only. In multi-goroutine runs quiescence-dependent clauses are asserted only if the queue really drained "
+            "(a stranded queue is C04's concern and is counted as class multi-goroutine:not-quiescent).",
+            "property-based testing (rapid), invariant over the raw tracer callback log", "DESIGN.md §5 C14"),
 }
 
 NOT_YET = "check not built yet in this session (planned, see DESIGN.md §9)"
